@@ -91,7 +91,7 @@ fn det(case: &Case, rep: &mut Report) {
     }
     if let Some((e0, t0, k0, first)) = subjects.first() {
         for (e, t, k, r) in subjects.iter().skip(1) {
-            if r.text != first.text {
+            if r.text != first.text || r.aux != first.aux {
                 let mut kinds = [first.kind_name(), r.kind_name()];
                 kinds.sort();
                 rep.findings.push(Finding {
@@ -103,7 +103,11 @@ fn det(case: &Case, rep: &mut Report) {
                         case.label,
                         first.canary,
                         r.canary,
-                        first_difference(&first.text, &r.text)
+                        if r.text != first.text {
+                            first_difference(&first.text, &r.text)
+                        } else {
+                            format!("token location {}", first_difference(&first.aux, &r.aux))
+                        }
                     ),
                 });
                 break;
